@@ -870,6 +870,12 @@ def bool_transfer(body, bb, known, pins=None):
                     need = ds_[0] if len(ds_) == 1 else None
                 if need is not None:
                     val = ("v", 1 if n_ >= need else 0)
+        elif callee(t) in ("core::option::Option::<&T>::copied", "core::option::Option::<&T>::cloned",
+                           "core::option::Option::<&mut T>::copied", "core::option::Option::<&mut T>::cloned") and len(t["args"]) == 1:
+            # the same variant as the option it copies
+            src = op_local(t["args"][0])
+            if src is not None and known.get(src, ("?",))[0] == "v":
+                val = known[src]
         elif callee(t) in ("core::slice::<impl [T]>::len", "core::slice::<impl [T]>::is_empty") and len(t["args"]) == 1:
             # length of a slice whose length is pinned for a case split: the argument is `&*s` built in this block
             a_ = op_local(t["args"][0])
@@ -1057,7 +1063,8 @@ def switch_relevant_locals(body):
                         changed = True
             t = blk["term"]
             if t["t"] == "call" and not t["dest"]["p"] and t["dest"]["l"] in rel and \
-                    (callee(t) == _TRY_BRANCH or callee(t).endswith("FromResidual::from_residual")):
+                    (callee(t) == _TRY_BRANCH or callee(t).endswith("FromResidual::from_residual") or
+                     callee(t).endswith(("Option::<&T>::copied", "Option::<&T>::cloned", "Option::<&mut T>::copied", "Option::<&mut T>::cloned"))):
                 for a in t["args"]:
                     p = op_place(a)
                     if p is not None and p["l"] not in rel:
